@@ -257,6 +257,37 @@ def and_se_tie(ctx, grammars, limit=120):
     ctx.stat("and_se_compared", len(keys))
 
 
+def settings_sequence(ctx):
+    """the entry points must agree for a grammar built AFTER the default whitespace was changed, whatever was parsed before the
+    change (parse_string builds its end-of-text test per call)"""
+    import pyparsing as pp
+    saved = pp.ParserElement.DEFAULT_WHITE_CHARS
+    try:
+        for first in ("parse_all", "matches", "eq", "none"):
+            pp.ParserElement.set_default_whitespace_chars(saved)
+            w0 = pp.Word("ab")
+            if first == "parse_all":
+                w0.parse_string("ab", parse_all=True)
+            elif first == "matches":
+                w0.matches("ab")
+            elif first == "eq":
+                w0 == "ab"
+            for ws in (" \t", " ", " \n"):
+                pp.ParserElement.set_default_whitespace_chars(ws)
+                e = pp.OneOrMore(pp.Word("ab"))
+                for inp in ("ab ba\n", "ab ba\t", "ab\nba", "ab ba", " ab"):
+                    pa = outcome(lambda: e.parse_string(inp, parse_all=True).as_list())
+                    se = outcome(lambda: (e + pp.StringEnd()).parse_string(inp).as_list())
+                    m = outcome(lambda: e.matches(inp))
+                    ctx.case("settings-seq|%s|%r|%r" % (first, ws, inp), True, True)
+                    if (pa[0] == "ok") != (se[0] == "ok") or m != ("ok", pa[0] == "ok"):
+                        ctx.violation("settings-sequence:%s|%r|%r" % (first, ws, inp),
+                                      "after a first %s call, set_default_whitespace_chars(%r) and a grammar built afterwards: on %r parse_all gives %r, (expr + StringEnd()) gives %r, matches gives %r" % (
+                                          first, ws, inp, pa, se, m), {"kind": "settings-seq"})
+    finally:
+        pp.ParserElement.set_default_whitespace_chars(saved)
+
+
 def correspond(ctx):
     corr.ensure_driver()
     rng = ctx.rng
@@ -269,6 +300,7 @@ def correspond(ctx):
     entries = [("parse", False), ("parse", True), ("scan", None, False, True), ("scan", 2, False, True), ("scan", None, True, True),
                ("scan", None, False, False), ("transform",)]
     groups = [(g, env, inputs, [("none",)], entries) for (g, env, inputs, _) in cases]
+    settings_sequence(ctx)
     stats = {}
     recs = corr.run_groups(groups, stats=stats)
     ctx.coverage_extra["class_histogram"] = stats.get("classes", {})
@@ -327,6 +359,13 @@ def _tuplify(x):
 
 def replay(ctx, obj):
     r = obj["replay"]
+    if r.get("kind") == "settings-seq":
+        c2 = vlib.Ctx(PROP, "quick", 0)
+        c2.known = {}
+        settings_sequence(c2)
+        for v in c2.violations:
+            print(v["what"])
+        return not c2.violations
     if r.get("kind") == "oracle":
         g, env = _tuplify(r["grammar"]), {int(k): _tuplify(v) for k, v in (r.get("env") or {}).items()}
         bad = oracle(g, env, r["input"], {"scan": [(None, False), (2, False), (None, True)], "split": [None, 1]}, r.get("ignore", False))
